@@ -13,6 +13,23 @@ From PS Require Import Model.Data Model.Actions Model.Fsm Model.History Model.Fs
 Import ListNotations.
 Open Scope Z_scope.
 
+(* The full statement over the tables of the code: for every history of a maker (any inputs the
+   environment can produce, crashes and restarts anywhere) (1) never two retransmitters, (2) a
+   retransmitter is live only while the stored swap announces the opening transaction or waits for
+   the taker's reaction, (3) the message handed to a retransmitter is opening_tx_broadcasted. *)
+Definition C22_full : Prop :=
+  forall dec t, t = table_swap_out_receiver \/ t = table_swap_in_sender ->
+  forall m0 its, hist_ok tl_consts_gen dec t terminal_states (init_hstate m0) its = true ->
+    let '(h, live, never_two) := live_hist tl_consts_gen dec t terminal_states m0 its in
+    never_two = true /\
+    (live = true -> exists m, hs_machine h = Some m /\ str_mem (m_cur m) (live_states t) = true) /\
+    retrans_msg_ok (hs_trace h) = true.
+
+(* Clause (3) is FALSE of the code (coq/Findings/F_C22_1.v: a premature opening_tx_broadcasted from
+   the peer makes the maker retransmit its stale NextMessage; root cause D10/C09).  Clauses (1) and
+   (2) hold for every history, even without hist_ok: c22_all_histories below; of clause (3) only
+   the two local facts of c22_announcement_message_partial are proved. *)
+
 (* For EVERY table that passes the reflective check, every entry point of the service, every swap
    data and environment: if a retransmitter can only be live in a live state before the step
    (and none is live right after a restart), then the step starts none while one is live, and
@@ -70,3 +87,17 @@ Theorem c22_example :
   starts_ok true [ERetransStart] = false /\ starts_ok true [ERetransStop; ERetransStart] = true.
 Proof. exact example_folds. Qed.
 Print Assumptions c22_example.
+
+(* PARTIAL (clause 3 of C22_full): the retransmitter gets NextMessage, and NextMessage is the
+   opening_tx_broadcasted message whenever CreateAndBroadcastOpeningTransaction really built the
+   transaction.  Missing: that no opening_tx_broadcasted message is in the swap data when the maker
+   enters BroadcastOpeningTx - which is false (finding C22-F1). *)
+Theorem c22_announcement_message_partial : forall tc,
+  (forall d w r w' es, act_send_message_retry d w = (r, w', es) ->
+     existsb (fun e => match e with ERetransStart => true | _ => false end) es = true ->
+     exists m, d_next_msg d = Some m /\ es = [ERetransStart; ESend (d_peer d) m] /\ r = (Ev_Succeeded, d)) /\
+  (forall d w d' w' es, act_create_and_broadcast_opening tc d w = ((Ev_Succeeded, d'), w', es) -> d_otb d = None ->
+     exists o, d_otb d' = Some o /\ d_next_msg d' = Some (MOtb o) /\
+               existsb (fun e => match e with EBroadcastOpening _ _ _ _ _ _ (Some _) => true | _ => false end) es = true).
+Proof. exact announcement_message_partial. Qed.
+Print Assumptions c22_announcement_message_partial.
